@@ -14,7 +14,7 @@ use rsbdd::{BDDSymbol, NamedSymbol, TruthTableEntry};
 use serde::{Deserialize, Serialize};
 
 use crate::core::{bump, bump_by, catch, Caught, RunOutcome, ScriptCancel, Stats, Violation};
-use crate::model::canon::{canon64, ordered_reduced, recreate, walk64};
+use crate::model::canon::{canon64, ordered_reduced, plain_copy, recreate, walk64};
 use crate::model::fast::{self, Printer, F};
 use crate::model::tt::{low_mask, var64};
 use crate::prng::{digest_bytes, mix, Prng};
@@ -423,7 +423,8 @@ pub fn gen_plan(rng: &mut Prng, property: &str, tier: &Tier) -> EnvPlan {
     };
 
     let ids_dense = !(property != "C19" && rng.chance(1, 3));
-    let cross_env = rng.coin();
+    // C13 runs with outside operands (a quarter) relax the reachability part of I4, the others do not
+    let cross_env = rng.coin() && (property != "C13" || rng.coin());
     // C19: a third of the runs are driven by set clients alone (no raw-API handle is kept alive)
     // C19 marathon: one run in 20000 is a very long history of one environment driven by set clients
     // over a 64-bit universe (hundreds of thousands of interned nodes, millions of sub-operations):
@@ -651,7 +652,15 @@ pub fn gen_plan(rng: &mut Prng, property: &str, tier: &Tier) -> EnvPlan {
                 }
             }
         };
-        let foreign = if property == "C02" && cross_env && rng.chance(faults.rate.max(10), 100) {
+        // C13: only for operations that never look their operand up in the table (`find`,
+        // `clean`, `duplicates` panic on a node the environment does not hold, by contract)
+        let foreign_ok = property == "C02"
+            || (property == "C13"
+                && matches!(
+                    op,
+                    Op::Bin(..) | Op::Ite(..) | Op::Exists(..) | Op::All(..) | Op::ExistsImpl(..) | Op::CountN(..) | Op::CountCmp(..) | Op::Un(UnKind::Not | UnKind::Model, _) | Op::Infer(..) | Op::Retain(..)
+                ));
+        let foreign = if foreign_ok && cross_env && rng.chance(faults.rate.max(10), 100) {
             (rng.range(1, 7) as u8) | if rng.coin() { 0x80 } else { 0 }
         } else {
             0
@@ -1147,6 +1156,9 @@ pub struct Exec<'p, W: World> {
     trace: Vec<u64>,
     states: Vec<u64>,
     cancelled_before: bool,
+    /// C13: an operand that lives outside the environment has been handed to an operation, so
+    /// registered nodes may legitimately have children that are not the registered allocation
+    outside_used: bool,
     interleavings: u64,
     last_client: Option<u8>,
     nonconst_results: u64,
@@ -1381,6 +1393,7 @@ impl<'p, W: World> Exec<'p, W> {
             trace: Vec::new(),
             states: Vec::new(),
             cancelled_before: false,
+            outside_used: false,
             interleavings: 0,
             last_client: None,
             nonconst_results: 0,
@@ -1502,6 +1515,10 @@ impl<'p, W: World> Exec<'p, W> {
         let mut seen: HashSet<*const BDD<W::S>> = HashSet::new();
         let mut stack: Vec<Rc<BDD<W::S>>> = self.handles.values().map(|h| Rc::clone(&h.rc)).collect();
         stack.extend(W::extra_roots(self));
+        if self.outside_used {
+            // nodes built over an outside operand keep that operand as a child: not judged
+            stack.clear();
+        }
         while let Some(node) = stack.pop() {
             if !seen.insert(Rc::as_ptr(&node)) {
                 continue;
@@ -1700,13 +1717,20 @@ impl<'p, W: World> Exec<'p, W> {
             }
             _ => return Ok(()),
         };
-        if self.prop() == "C02" && step.foreign != 0 {
+        let mut foreign_used = false;
+        if matches!(self.prop(), "C02" | "C13") && step.foreign != 0 {
             let names = self.names.clone();
             for (i, a) in args.iter_mut().enumerate().take(6) {
                 if (step.foreign >> i) & 1 == 1 && a.is_choice() {
+                    foreign_used = true;
+                    if self.prop() == "C13" {
+                        self.outside_used = true;
+                    }
                     *a = if step.foreign & 0x80 != 0 {
-                        let tt = self.walk(a).unwrap_or(0);
-                        canon64::<W::S>(tt, self.n, &|k| W::sym(&names, k))
+                        match self.walk(a) {
+                            Ok(tt) if self.n <= 6 && self.prop() == "C02" => canon64::<W::S>(tt, self.n, &|k| W::sym(&names, k)),
+                            _ => plain_copy(a),
+                        }
                     } else {
                         recreate(&self.env2, a)
                     };
@@ -1777,6 +1801,8 @@ impl<'p, W: World> Exec<'p, W> {
                 (Caught::Ok(a), Caught::Ok(b)) => {
                     let judged = match op {
                         Op::Size => false,
+                        // two allocations of one structure are legitimate once an outside operand was captured
+                        Op::Duplicates(_) | Op::NodeList(_) if self.outside_used => false,
                         Op::Duplicates(_) => !matches!((a, b), (Res::Num(x), Res::Num(y)) if x != y && u32_collision(&args[0])),
                         _ => true,
                     };
@@ -1891,7 +1917,9 @@ impl<'p, W: World> Exec<'p, W> {
                             }
                             _ => {}
                         }
-                        if step.keep {
+                        // C13 with an outside operand: the result may be that operand itself
+                        // (pass-through cases), which no environment holds; it is judged (I2) and dropped
+                        if step.keep && !(foreign_used && self.prop() == "C13") {
                             self.keep(Rc::clone(d), tt);
                         } else {
                             bump(&mut self.stats, "fault.noise-build");
@@ -1906,14 +1934,16 @@ impl<'p, W: World> Exec<'p, W> {
                     Res::List(l) => self.trace.push(mix(&[step_no as u64, l.len() as u64])),
                     Res::Unit => {}
                 }
-                if self.log.len() >= 8 {
-                    self.log.remove(0);
+                if !(foreign_used && self.prop() == "C13") {
+                    if self.log.len() >= 8 {
+                        self.log.remove(0);
+                    }
+                    self.log.push(LogEntry {
+                        op: op.clone(),
+                        args,
+                        res,
+                    });
                 }
-                self.log.push(LogEntry {
-                    op: op.clone(),
-                    args,
-                    res,
-                });
             }
             Caught::Cancel => self.trace.push(mix(&[step_no as u64, 0xCA])),
             Caught::Panic(..) => self.trace.push(mix(&[step_no as u64, 0xBAD])),
@@ -2678,8 +2708,12 @@ pub fn minimise(plan: &EnvPlan, v: &Violation) -> (EnvPlan, Violation) {
     let mut best = plan.clone();
     let mut best_v = v.clone();
     let mut budget = 4000usize;
+    // wall-clock safety net for very long plans (marathon runs): once it expires no further
+    // candidate is tried; what has been reduced so far is still a failing plan. The verdict
+    // never depends on it, only how small the replay file gets.
+    let started = std::time::Instant::now();
     let same = |p: &EnvPlan| -> Option<Violation> {
-        if !plan_valid(p) {
+        if !plan_valid(p) || started.elapsed().as_secs() > 240 {
             return None;
         }
         let out = execute(p);
